@@ -886,10 +886,19 @@ class DBusObjectHandler :
                     errMsg = ('!!(Invalid error name "%s")!! ' % name) + errMsg
                     name = 'org.txdbus.InvalidErrorName'
 
-                r = message.ErrorMessage(name, msg.serial,
-                                         body=[errMsg],
-                                         signature='s',
-                                         destination=msg.sender)
+                try:
+                    r = message.ErrorMessage(name, msg.serial,
+                                             body=[errMsg],
+                                             signature='s',
+                                             destination=msg.sender)
+                except (error.MarshallingError, UnicodeError):
+                    # The text cannot travel as a DBus string (embedded NUL,
+                    # lone surrogate): the caller still gets its error reply
+                    errMsg = errMsg.encode('unicode_escape').decode('ascii')
+                    r = message.ErrorMessage(name, msg.serial,
+                                             body=[errMsg],
+                                             signature='s',
+                                             destination=msg.sender)
                 self.conn.sendMessage(r)
 
             d.addCallback(send_reply)
